@@ -1,3 +1,4 @@
+@neg.setter
 def spec(self, value):
     if value is not None:
         self._neg.append(value)
